@@ -5,6 +5,8 @@ Ltac Zify.zify_post_hook ::= Z.div_mod_to_equations.
 Local Open Scope N_scope.
 
 (* ---- constants the proofs rely on (regenerated from the Go source) ---- *)
+Lemma pow2_eq k : pow2 k = 2 ^ k.
+Proof. unfold pow2. destruct k as [|p]; [reflexivity|]. do 4 (destruct p as [p|p|]; try reflexivity). Qed.
 Lemma SB3_512 : SB3 = 512. Proof. reflexivity. Qed.
 Lemma SB3n_512 : SB3n = 512%nat. Proof. reflexivity. Qed.
 Lemma max_sub_128 : n_P_MaxSubBlockSize = 128. Proof. reflexivity. Qed.
@@ -32,14 +34,28 @@ Proof. destruct l; [reflexivity|]. rewrite len_cons. lia. Qed.
 Lemma len_map {A B} (f : A -> B) l : len (map f l) = len l.
 Proof. unfold len. now rewrite map_length. Qed.
 
-Lemma nth_error_some {A} (l : list A) (i : N) : i < len l -> exists x, nth_error l (N.to_nat i) = Some x.
+Lemma Some_inj {A} (a b : A) : Some a = Some b -> a = b.
+Proof. intro H. inversion H. reflexivity. Qed.
+
+Lemma nthN_big_eq {A} (l : list A) : forall i, nthN_big l i = nth_error l (N.to_nat i).
 Proof.
-  intro H. destruct (nth_error l (N.to_nat i)) eqn:E; [eauto|].
+  induction l as [|a l IH]; intro i; cbn [nthN_big].
+  - now destruct (N.to_nat i).
+  - destruct (i =? 0) eqn:E.
+    + apply N.eqb_eq in E. subst i. reflexivity.
+    + apply N.eqb_neq in E. rewrite IH. replace (N.to_nat i) with (S (N.to_nat (i - 1))) by lia. reflexivity.
+Qed.
+Lemma nthN_eq {A} (l : list A) i : nthN l i = nth_error l (N.to_nat i).
+Proof. unfold nthN. destruct (i <? 65536); [reflexivity|apply nthN_big_eq]. Qed.
+
+Lemma nth_error_some {A} (l : list A) (i : N) : i < len l -> exists x, nthN l i = Some x.
+Proof.
+  intro H. rewrite nthN_eq. destruct (nth_error l (N.to_nat i)) eqn:E; [eauto|].
   apply nth_error_None in E. unfold len in H. lia.
 Qed.
 
-Lemma Forall_nth_error {A} (P : A -> Prop) l i x : Forall P l -> nth_error l i = Some x -> P x.
-Proof. intros H E. apply nth_error_In in E. rewrite Forall_forall in H. auto. Qed.
+Lemma Forall_nth_error {A} (P : A -> Prop) l i x : Forall P l -> nthN l i = Some x -> P x.
+Proof. intros H E. rewrite nthN_eq in E. apply nth_error_In in E. rewrite Forall_forall in H. auto. Qed.
 
 Lemma existsb_false_Forall {A} (f : A -> bool) l : existsb f l = false -> Forall (fun x => f x = false) l.
 Proof.
@@ -90,7 +106,7 @@ Proof. intro H. unfold bits_for. replace (n <? 2) with true by (symmetry; apply 
 Lemma value_bytes_eq n : 8 * value_bytes n = SB3 * bits_for n.
 Proof. unfold value_bytes. rewrite SB3_512. lia. Qed.
 Definition wf_block (L : N) (b : block) : Prop :=
-  len (b_vals b) <= L /\
+  len (b_vals b) <= L /\ num_subblocks b <> 0 /\
   (len (b_labels b) <= 1 \/
   (len (b_nsb b) = num_subblocks b /\
    Forall (fun n => n <= SB3) (b_nsb b) /\
@@ -114,6 +130,16 @@ Proof.
   destruct (nl =? 0) eqn:Enl; [split; [discriminate|intros; discriminate]|].
   destruct (_ || _ || _) eqn:Edim; [split; [discriminate|intros; discriminate]|].
   destruct (max_labels <? nl) eqn:Emax; [split; [discriminate|intros; discriminate]|].
+  set (nsub := u32 (gx * gy * gz)).
+  destruct (nsub =? 0) eqn:Ensub; [split; [discriminate|intros; discriminate]|].
+  apply N.eqb_neq in Ensub.
+  assert (Hnsub : nsub = gx * gy * gz).
+  { unfold nsub, u32. apply N.mod_small.
+    apply orb_false_iff in Edim as [Edim Ez]. apply orb_false_iff in Edim as [Ex Ey].
+    apply N.ltb_ge in Ex, Ey, Ez. rewrite max_sub_128 in *.
+    assert (gx * gy <= 128 * 128) by (apply N.mul_le_mono; lia).
+    assert (gx * gy * gz <= 128 * 128 * 128) by (apply N.mul_le_mono; lia).
+    change (2 ^ 32) with 4294967296. lia. }
   destruct (len data <? 16 + nl * 8) eqn:EL1; [split; [discriminate|intros; discriminate]|].
   apply N.ltb_ge in E24, EL1, Emax. apply N.eqb_neq in Enl.
   pose proof (len_padded data) as Hpad. pose proof (cap8_ge (len data)) as Hcap.
@@ -127,11 +153,9 @@ Proof.
   apply alias_inv in Ea1 as [Hlab _]. rewrite Hs1 in Hlab.
   replace (nl * 8 / 8) with nl in Hlab by lia.
   destruct (len labels <=? 1) eqn:Esolid.
-  { split; [discriminate|]. intros b Hb. apply Ok_inj in Hb. subst b. split; [cbn; lia|]. left. cbn [b_labels solid]. apply N.leb_le in Esolid. exact Esolid. }
-  set (nsub := u32 (gx * gy * gz)).
-  destruct (nsub =? 0) eqn:Ensub; [split; [discriminate|intros; discriminate]|].
+  { split; [discriminate|]. intros b Hb. apply Ok_inj in Hb. subst b. split; [cbn; lia|]. split; [unfold num_subblocks; cbn [solid b_gx b_gy b_gz]; lia|]. left. cbn [b_labels solid]. apply N.leb_le in Esolid. exact Esolid. }
   destruct (len data <? 16 + nl * 8 + nsub * 2) eqn:EL2; [split; [discriminate|intros; discriminate]|].
-  apply N.ltb_ge in EL2. apply N.eqb_neq in Ensub.
+  apply N.ltb_ge in EL2.
   rewrite (gslice_ok (padded data) (16 + nl * 8) (16 + nl * 8 + nsub * 2)) by lia. cbn [res_bind].
   replace (16 + nl * 8 + nsub * 2 - (16 + nl * 8)) with (nsub * 2) by lia.
   set (s2 := sub (padded data) (16 + nl * 8) (nsub * 2)).
@@ -157,14 +181,10 @@ Proof.
   destruct (existsb (fun i => nl <=? i) idx) eqn:Eout; [split; [discriminate|intros; discriminate]|].
   destruct (len data <? pos2 + sumN nsb * 4 + sumN (map value_bytes nsb)) eqn:EL4; [split; [discriminate|intros; discriminate]|].
   apply N.ltb_ge in EL4.
-  split; [discriminate|]. intros b Hb. apply Ok_inj in Hb. subst b. split; [cbn [b_vals]; rewrite len_skipn; lia|]. right. unfold num_subblocks. cbn [b_gx b_gy b_gz b_labels b_nsb b_idx b_vals].
+  split; [discriminate|]. intros b Hb. apply Ok_inj in Hb. subst b. split; [cbn [b_vals]; rewrite len_skipn; lia|]. unfold num_subblocks. cbn [b_gx b_gy b_gz b_labels b_nsb b_idx b_vals].
+  split; [lia|]. right.
   repeat split.
-  - rewrite Hnsb. unfold nsub, u32. apply N.mod_small.
-    apply orb_false_iff in Edim as [Edim Ez]. apply orb_false_iff in Edim as [Ex Ey].
-    apply N.ltb_ge in Ex, Ey, Ez. rewrite max_sub_128 in *. 
-    assert (gx * gy <= 128 * 128) by (apply N.mul_le_mono; lia).
-    assert (gx * gy * gz <= 128 * 128 * 128) by (apply N.mul_le_mono; lia).
-    change (2 ^ 32) with 4294967296. lia.
+  - lia.
   - apply existsb_false_Forall in Ebig. eapply Forall_impl; [|exact Ebig]. cbv beta. intros n Hn. apply N.ltb_ge in Hn. exact Hn.
   - symmetry. exact Hidx.
   - apply existsb_false_Forall in Eout. eapply Forall_impl; [|exact Eout]. cbv beta. intros i Hi. apply N.leb_gt in Hi. lia.
@@ -338,9 +358,9 @@ Proof.
   assert (Hhere : (if c =? k
                    then match get_packed vals (bp + o * bits_for n) (bits_for n) with
                         | None => Panic
-                        | Some v => match nth_error idx (N.to_nat (ipos + v)) with
+                        | Some v => match nthN idx (ipos + v) with
                                     | None => Panic
-                                    | Some ix => match nth_error labels (N.to_nat ix) with
+                                    | Some ix => match nthN labels ix with
                                                  | None => Panic
                                                  | Some _ => Ok tt
                                                  end
@@ -367,7 +387,7 @@ Theorem ingest_block_no_panic data : len data < block_limit -> ingest_block true
 Proof.
   intro HL. unfold ingest_block, parse_block. destruct (parse_block_fixed_spec data) as [Hnp Hwf].
   destruct (parse_block_fixed data) as [b| |] eqn:E; cbn [res_bind]; [|discriminate|congruence].
-  destruct (Hwf b eq_refl) as [Hv Hw]. unfold validate.
+  destruct (Hwf b eq_refl) as [Hv [_ Hw]]. unfold validate.
   destruct (len (b_labels b) <=? 1) eqn:E1; cbn [res_bind]; [discriminate|].
   destruct Hw as [Hw|Hw]; [apply N.leb_gt in E1; lia|]. destruct Hw as (_ & _ & _ & _ & Hvals).
   destruct (validate_go (b_vals b) (b_nsb b) 0) eqn:EV; cbn [res_bind]; try discriminate.
@@ -377,13 +397,15 @@ Qed.
 
 Theorem ingest_block_safe data b :
   len data < block_limit -> ingest_block true data = Ok b ->
-  view_volume b = Ok tt /\ forall k o, o < SB3 -> view_point b k o = Ok tt.
+  view_volume b = Ok tt /\ view_calc b = Ok tt /\ forall k o, o < SB3 -> view_point b k o = Ok tt.
 Proof.
   intros HL E. unfold ingest_block, parse_block in E. destruct (parse_block_fixed_spec data) as [_ Hwf].
   destruct (parse_block_fixed data) as [b0| |] eqn:EP; cbn [res_bind] in E; try discriminate.
   destruct (validate b0) as [[]| |] eqn:EV; cbn [res_bind] in E; try discriminate.
-  apply Ok_inj in E. subst b0. destruct (Hwf b eq_refl) as [Hv Hw].
-  unfold view_volume, view_point, validate in *.
+  apply Ok_inj in E. subst b0. destruct (Hwf b eq_refl) as [Hv [Hnz Hw]].
+  unfold view_volume. replace (num_subblocks b =? 0) with false by (symmetry; apply N.eqb_neq; exact Hnz).
+  cut (view_calc b = Ok tt /\ forall k o, o < SB3 -> view_point b k o = Ok tt); [tauto|].
+  unfold view_calc, view_point, validate in *.
   destruct (len (b_labels b) <? 2) eqn:E2; [split; [reflexivity|intros; reflexivity]|].
   apply N.ltb_ge in E2. replace (len (b_labels b) <=? 1) with false in EV by (symmetry; apply N.leb_gt; lia).
   destruct Hw as [Hw|Hw]; [lia|]. destruct Hw as (Hn & Hsb & Hsum & Hidx & Hvals).
@@ -426,7 +448,7 @@ Proof.
   destruct (gunzip comp) as [raw| |] eqn:EG; [|right; reflexivity|exfalso; eapply gunzip_total; eauto].
   pose proof (ingest_block_no_panic raw (gunzip_bounded _ _ EG)) as Hnp.
   destruct (ingest_block true raw) as [b| |] eqn:EI; [|right; reflexivity|congruence].
-  destruct (ingest_block_safe raw b (gunzip_bounded _ _ EG) EI) as [Hv _]. rewrite Hv. apply IH.
+  destruct (ingest_block_safe raw b (gunzip_bounded _ _ EG) EI) as [_ [Hv _]]. rewrite Hv. apply IH.
 Qed.
 
 Lemma store_blocks_frame fx fuel : forall s st st' o k,
@@ -438,7 +460,7 @@ Proof.
     cbn [In] in Hk. assert (Hne : coord <> k) by tauto. assert (Hk' : ~ In k (frame_coords f rest)) by tauto.
     destruct (gunzip comp) as [raw| |]; try (inversion E; reflexivity).
     destruct (ingest_block fx raw) as [b| |]; try (inversion E; reflexivity).
-    destruct (view_volume b).
+    destruct (view_calc b).
     + rewrite (IH _ _ _ _ _ E Hk'). apply sget_sput_other. exact Hne.
     + rewrite (IH _ _ _ _ _ E Hk'). apply sget_sput_other. exact Hne.
     + inversion E; subst. apply sget_sput_other. exact Hne.
@@ -590,7 +612,7 @@ Definition w_inflated_labels : bytes := hx "010000000100000001000000020000000500
 Definition w_zero_dim : bytes := hx "0000000001000000010000000200000005000000000000000600000000000000".
 (* 2x1x1 sub-blocks, labels {5,6}, one label per sub-block, the second index is 77 *)
 Definition w_index_outside : bytes :=
-  hx "02000000010000000100000002000000050000000000000006000000000000000100010000000000004d000000".
+  hx "020000000100000001000000020000000500000000000000060000000000000001000100000000004d000000".
 (* 2x1x1 sub-blocks, the first has two labels, but no packed values follow *)
 Definition w_no_values : bytes :=
   hx "020000000100000001000000020000000500000000000000060000000000000002000100000000000100000000000000".
